@@ -235,7 +235,10 @@ Lemma fb_ok_firstn buf k f : fb_ok (firstn k buf) f -> fb_ok buf f.
 Proof. unfold fb_ok. rewrite firstn_length. lia. Qed.
 
 Lemma acc_ok_firstn buf k a : acc_ok (firstn k buf) a -> acc_ok buf a.
-Proof. destruct a as [[x y] z]. unfold acc_ok. intros (A & B & C). eauto using fb_ok_firstn. Qed.
+Proof.
+  destruct a as [[x y] z]. unfold acc_ok. intros (A & B & C).
+  split; [|split]; eapply fb_ok_firstn; eassumption.
+Qed.
 
 Lemma get_parent_inner_total buf hf ht :
   (hf <= ht <= length buf)%nat -> b3_good buf (get_parent_inner buf hf ht).
